@@ -80,6 +80,11 @@ def gen(repo):
     for stmt in re.split(r"[;{}]", loop):
         st = re.sub(r"\s+", " ", stmt).strip()
         if st and idents.search(st):
+            # the 503 answer on pool refusal may READ the request (FC16f: `isHeadRequest(requestData)` decides whether the answer
+            # has a body - response formation, C16); it moves no offset and is no part of the extraction skeleton (that the call is
+            # there, and what its completion does to the session, is checked further down)
+            if re.match(r"sendErrorResponse\(\s*sid\s*,\s*503\b", st):
+                continue
             # what is handed to the pool is `requestData`; further captures / arguments of the dispatch lambda (e.g. a restart
             # epoch) do not concern the framing and are normalised away
             st = re.sub(r"\[this, sid, requestData(?:, \w+)*\]", "[this, sid, requestData]", st)
